@@ -26,6 +26,7 @@ void vb_list_dtor(struct vb_list_LogContainer_p *l);
 #define VB_INIT_list(l) ((l)->items = NULL, (l)->head = 0, (l)->tail = 0, (l)->cap = 0)
 #define VB_DTOR_list(l) vb_list_dtor(l)
 #define VB_LIST_EMPTY(l) ((l).head == (l).tail)
+#define VB_LIST_SIZE(l) ((size_t)((l).tail - (l).head))
 #define VB_LIST_FRONT(l) ((l).items[(l).head])
 #define VB_LIST_BACK(l) ((l).items[(l).tail - 1])
 #define VB_LIST_AT(l, i) ((l).items[i])
